@@ -30,7 +30,7 @@ TIERS = {
     "thorough": [dict(names='{"a", "b", "a_1"}', contents="cContents", points='{"p", "q", "zz"}',
                       texts='{"P", "Q"}', items=4, feeds=3),
                  dict(names='{"a", "a_1", "a_2", "a_1_1"}', contents="cContentsSmall", points='{"p"}',
-                      texts='{"P"}', items=6, feeds=2),
+                      texts='{"P"}', items=5, feeds=2),
                  dict(names='{"a", "b"}', contents="cContentsSmall", points='{"p", "q"}',
                       texts='{"P", "Q"}', items=5, feeds=3)],
 }
